@@ -29,4 +29,35 @@ var c05MoreSelfTests = []SelfTest{
 	{Name: "rewrite: pre-check relaxed and written with swapped operands", Edits: []Edit{
 		{File: "internal/protocol/frame.go", Old: "\tif len(buf) < 8 {\n\t\treturn nil, fmt.Errorf(\"%w: Keepalive too short\", ErrInvalidFrame)", New: "\tif !(len(buf) >= 1) {\n\t\treturn nil, fmt.Errorf(\"%w: Keepalive too short\", ErrInvalidFrame)"},
 	}},
+	{Name: "rewrite: readBytes on top of a bounds-checking take helper (swapped operands)", Edits: []Edit{
+		{File: "internal/protocol/frame.go", Old: "\tif r.err != nil || r.offset+n > len(r.buf) {\n\t\tr.setError(\"truncated\")\n\t\treturn nil\n\t}\n\tdata := make([]byte, n)\n\tcopy(data, r.buf[r.offset:r.offset+n])\n\tr.offset += n\n\treturn data\n}\n", New: "\tsrc, ok := r.take(n, \"truncated\")\n\tif !ok {\n\t\treturn nil\n\t}\n\tdata := make([]byte, n)\n\tcopy(data, src)\n\treturn data\n}\n\nfunc (r *bufferReader) take(n int, msg string) ([]byte, bool) {\n\tif r.err != nil || len(r.buf) < r.offset+n {\n\t\tr.setError(msg)\n\t\treturn nil, false\n\t}\n\tview := r.buf[r.offset : r.offset+n]\n\tr.offset += n\n\treturn view, true\n}\n"},
+	}},
+	{Name: "take helper that does not check the remaining input", ExpectRule: "C05.R3", ExpectKey: "readBytes", Edits: []Edit{
+		{File: "internal/protocol/frame.go", Old: "\tif r.err != nil || r.offset+n > len(r.buf) {\n\t\tr.setError(\"truncated\")\n\t\treturn nil\n\t}\n\tdata := make([]byte, n)\n\tcopy(data, r.buf[r.offset:r.offset+n])\n\tr.offset += n\n\treturn data\n}\n", New: "\tsrc, ok := r.take(n, \"truncated\")\n\tif !ok {\n\t\treturn nil\n\t}\n\tdata := make([]byte, n)\n\tcopy(data, src)\n\treturn data\n}\n\nfunc (r *bufferReader) take(n int, msg string) ([]byte, bool) {\n\tif r.err != nil {\n\t\tr.setError(msg)\n\t\treturn nil, false\n\t}\n\tview := r.buf[r.offset : r.offset+n]\n\tr.offset += n\n\treturn view, true\n}\n"},
+	}},
+	{Name: "rewrite: header limit as a predicate helper, payload read in a helper taking the length", Edits: []Edit{
+		{File: "internal/protocol/frame.go", Old: "// DecodeHeader decodes a frame header from bytes.", New: "func payloadTooLarge(n uint64) bool {\n\treturn n > MaxPayloadSize\n}\n\n// DecodeHeader decodes a frame header from bytes."},
+		{File: "internal/protocol/frame.go", Old: "\tif length > MaxPayloadSize {\n\t\treturn 0, 0, 0, 0, ErrFrameTooLarge\n\t}\n\n\treturn\n", New: "\tif payloadTooLarge(uint64(length)) {\n\t\treturn 0, 0, 0, 0, ErrFrameTooLarge\n\t}\n\n\treturn\n"},
+		{File: "internal/protocol/frame.go", Old: "\tpayload := make([]byte, length)\n\tif length > 0 {\n\t\tif _, err := io.ReadFull(fr.r, payload); err != nil {\n\t\t\treturn nil, err\n\t\t}\n\t}\n", New: "\tpayload, err := fr.readPayload(length)\n\tif err != nil {\n\t\treturn nil, err\n\t}\n"},
+		{File: "internal/protocol/frame.go", Old: "// FrameWriter writes frames to an io.Writer.", New: "func (fr *FrameReader) readPayload(length uint32) ([]byte, error) {\n\tpayload := make([]byte, length)\n\tif length == 0 {\n\t\treturn payload, nil\n\t}\n\tif _, err := io.ReadFull(fr.r, payload); err != nil {\n\t\treturn nil, err\n\t}\n\treturn payload, nil\n}\n\n// FrameWriter writes frames to an io.Writer."},
+	}},
+	{Name: "payload helper fed with an unchecked header length", ExpectRule: "C05.R3", ExpectKey: "readPayload", Edits: []Edit{
+		{File: "internal/protocol/frame.go", Old: "\tif length > MaxPayloadSize {\n\t\treturn 0, 0, 0, 0, ErrFrameTooLarge\n\t}\n\n\treturn\n", New: "\treturn\n"},
+		{File: "internal/protocol/frame.go", Old: "\tpayload := make([]byte, length)\n\tif length > 0 {\n\t\tif _, err := io.ReadFull(fr.r, payload); err != nil {\n\t\t\treturn nil, err\n\t\t}\n\t}\n", New: "\tpayload, err := fr.readPayload(length)\n\tif err != nil {\n\t\treturn nil, err\n\t}\n"},
+		{File: "internal/protocol/frame.go", Old: "// FrameWriter writes frames to an io.Writer.", New: "func (fr *FrameReader) readPayload(length uint32) ([]byte, error) {\n\tpayload := make([]byte, length)\n\tif length == 0 {\n\t\treturn payload, nil\n\t}\n\tif _, err := io.ReadFull(fr.r, payload); err != nil {\n\t\treturn nil, err\n\t}\n\treturn payload, nil\n}\n\n// FrameWriter writes frames to an io.Writer."},
+	}},
+	{Name: "rewrite: keepalive codec delegates to a shared unexported payload type", Edits: []Edit{
+		{File: "internal/protocol/frame.go", Old: "func (k *Keepalive) Encode() []byte {\n\tw := newBufferWriter(8)\n\tw.writeUint64(k.Timestamp)\n\treturn w.bytes()\n}\n", New: "func (k *Keepalive) Encode() []byte {\n\treturn (&timestampPayload{at: k.Timestamp}).encode()\n}\n\ntype timestampPayload struct{ at uint64 }\n\nfunc (t *timestampPayload) encode() []byte {\n\tw := newBufferWriter(8)\n\tw.writeUint64(t.at)\n\treturn w.bytes()\n}\n\nfunc decodeTimestampPayload(buf []byte, name string) (*timestampPayload, error) {\n\tif len(buf) < 8 {\n\t\treturn nil, fmt.Errorf(\"%w: %s too short\", ErrInvalidFrame, name)\n\t}\n\tr := newBufferReader(buf, name)\n\treturn &timestampPayload{at: r.readUint64()}, nil\n}\n"},
+		{File: "internal/protocol/frame.go", Old: "\tif len(buf) < 8 {\n\t\treturn nil, fmt.Errorf(\"%w: Keepalive too short\", ErrInvalidFrame)\n\t}\n\tr := newBufferReader(buf, \"Keepalive\")\n\treturn &Keepalive{Timestamp: r.readUint64()}, nil\n", New: "\tt, err := decodeTimestampPayload(buf, \"Keepalive\")\n\tif err != nil {\n\t\treturn nil, err\n\t}\n\treturn &Keepalive{Timestamp: t.at}, nil\n"},
+	}},
+	{Name: "shared payload decoder reads a narrower integer than the encoder writes", ExpectRule: "C05.R1", ExpectKey: "Keepalive", Edits: []Edit{
+		{File: "internal/protocol/frame.go", Old: "func (k *Keepalive) Encode() []byte {\n\tw := newBufferWriter(8)\n\tw.writeUint64(k.Timestamp)\n\treturn w.bytes()\n}\n", New: "func (k *Keepalive) Encode() []byte {\n\treturn (&timestampPayload{at: k.Timestamp}).encode()\n}\n\ntype timestampPayload struct{ at uint64 }\n\nfunc (t *timestampPayload) encode() []byte {\n\tw := newBufferWriter(8)\n\tw.writeUint64(t.at)\n\treturn w.bytes()\n}\n\nfunc decodeTimestampPayload(buf []byte, name string) (*timestampPayload, error) {\n\tif len(buf) < 8 {\n\t\treturn nil, fmt.Errorf(\"%w: %s too short\", ErrInvalidFrame, name)\n\t}\n\tr := newBufferReader(buf, name)\n\treturn &timestampPayload{at: uint64(r.readUint32())}, nil\n}\n"},
+		{File: "internal/protocol/frame.go", Old: "\tif len(buf) < 8 {\n\t\treturn nil, fmt.Errorf(\"%w: Keepalive too short\", ErrInvalidFrame)\n\t}\n\tr := newBufferReader(buf, \"Keepalive\")\n\treturn &Keepalive{Timestamp: r.readUint64()}, nil\n", New: "\tt, err := decodeTimestampPayload(buf, \"Keepalive\")\n\tif err != nil {\n\t\treturn nil, err\n\t}\n\treturn &Keepalive{Timestamp: t.at}, nil\n"},
+	}},
+	{Name: "rewrite: trailing flags written by a loop over a fixed array", Edits: []Edit{
+		{File: "internal/protocol/frame.go", Old: "\t// FileTransferEnabled\n\tw.writeBool(info.FileTransferEnabled)\n\n\t// ShellEnabled\n\tw.writeBool(info.ShellEnabled)\n\n\t// IcmpEnabled\n\tw.writeBool(info.IcmpEnabled)\n", New: "\tfor _, flag := range [...]bool{info.FileTransferEnabled, info.ShellEnabled, info.IcmpEnabled} {\n\t\tw.writeBool(flag)\n\t}\n"},
+	}},
+	{Name: "flag loop writes one flag too few", ExpectRule: "C05.R1", ExpectKey: "NodeInfo", Edits: []Edit{
+		{File: "internal/protocol/frame.go", Old: "\t// FileTransferEnabled\n\tw.writeBool(info.FileTransferEnabled)\n\n\t// ShellEnabled\n\tw.writeBool(info.ShellEnabled)\n\n\t// IcmpEnabled\n\tw.writeBool(info.IcmpEnabled)\n", New: "\tfor _, flag := range [...]bool{info.FileTransferEnabled, info.ShellEnabled} {\n\t\tw.writeBool(flag)\n\t}\n"},
+	}},
 }
